@@ -16,6 +16,8 @@ type ctx struct {
 	U, LU  []int64
 	ids    []int64 // IDs mentioned so far (query set of the per-step comparison)
 	inIDs  map[int64]bool
+	cur    []int64 // IDs affected by the current step
+	prev   []int64 // IDs affected by the previous step
 	soft   map[string]*vk.Failure // first failure per known-defect key after which the history goes on
 	step   int
 	opDesc string
@@ -64,6 +66,7 @@ func (x *ctx) touch(ids ...int64) {
 			x.inIDs[id] = true
 			x.ids = append(x.ids, id)
 		}
+		x.cur = append(x.cur, id)
 	}
 }
 
@@ -162,6 +165,8 @@ func (x *ctx) apply(op Op) *vk.Failure {
 		if f := x.call("removenode", false, func() { s.nr.RemoveNode(a) }); f != nil {
 			return f
 		}
+		// the neighbours lose an edge: they are affected as well
+		x.cur = append(append(x.cur, m.from(a)...), m.to(a)...)
 		m.removeNode(a)
 
 	case opSetEdge, opSetUnit:
@@ -442,7 +447,11 @@ func (x *ctx) checkMultiEdge(what string, e graph.Edge, u, v int64, canon bool) 
 	return x.failf("aggregated-edge-type", "%s has type %T; documented: multi.Edge / multi.WeightedEdge", what, e)
 }
 
-func (x *ctx) compare(ids []int64) *vk.Failure {
+// compare checks every query against the model. ids is the query ID set; when
+// recent is non-nil the per-node and per-pair queries are restricted to nodes in
+// recent and to pairs with at least one end in recent (long random histories;
+// the unrestricted comparison runs periodically and at the end).
+func (x *ctx) compare(ids []int64, recent map[int64]bool) *vk.Failure {
 	s, m, ki := x.s, x.m, x.m.ki
 	und := !ki.directed
 
@@ -506,6 +515,9 @@ func (x *ctx) compare(ids []int64) *vk.Failure {
 
 	// From, To
 	for _, u := range ids {
+		if recent != nil && !recent[u] {
+			continue
+		}
 		fr, isNode := m.from(u), m.has(u)
 		if it := s.g.From(u); isNode || len(fr) != 0 || it != graph.Empty {
 			if f := x.checkIter(nodesView("From", it).with(u), x.wantNodes(fr)); f != nil {
@@ -524,7 +536,11 @@ func (x *ctx) compare(ids []int64) *vk.Failure {
 
 	// pair queries over all ordered pairs
 	for _, u := range ids {
+		ru := recent == nil || recent[u]
 		for _, v := range ids {
+			if !ru && !recent[v] {
+				continue
+			}
 			uv, vu := m.hasFromTo(u, v), m.hasFromTo(v, u)
 			if got := s.g.HasEdgeBetween(u, v); got != (uv || vu) {
 				return x.failf("hasedgebetween", "HasEdgeBetween(%d,%d)=%v, model %v", u, v, got, uv || vu)
